@@ -270,6 +270,9 @@ pub fn judge(g: &Gillham, col: &mut Collector, bytes: &[u8]) -> (Expectation, Ob
                 if *stage == "display" {
                     col.add(finding("C11", "rendering_panics", &exp.class, format!("Display panicked at {loc}: {msg}"), bytes));
                 }
+                if *stage == "calculate" {
+                    col.add(finding("C07", "calculate_panics", &exp.class, format!("AirborneVelocity::calculate panicked at {loc}: {msg}"), bytes));
+                }
             }
             if exp.verdict != Verdict::Accept {
                 col.add(finding("C02", "accepts_invalid", &format!("{}/{:?}", exp.class, exp.verdict), format!("decoder accepted a buffer that must be rejected ({:?}); debug {}", exp.verdict, ok.debug), bytes));
